@@ -119,6 +119,15 @@ def gen_cases(ctx):
             rng.shuffle(lig)
             pg["astereo"][0] = (cls, (0, *lig), rng.choice(sem.PARITY_DOMAIN[cls]))
             kind = "complex"
+        elif fam == 6 and (i // 8) % 2 == 1:  # random molecule with several centres (molgen)
+            from .. import molgen
+
+            skel = molgen.random_smiles(rng, n_heavy=(4, 14), p_triple=0.0)
+            iso = molgen.stereoisomers(skel, rng, max_isomers=4) if skel else []
+            if not iso:
+                continue
+            yield {"kind": "organic", "smiles": iso[rng.randrange(len(iso))], "idfam": idfam, "iseed": rng.randrange(1 << 30), "bo": False, "random_molecule": True}
+            continue
         elif fam in (5, 6):
             skel = c12.SKELETONS[(i // 8) % len(c12.SKELETONS)]
             iso = c12.isomers(skel)
